@@ -10,6 +10,7 @@ use crate::ev;
 use crate::fault::FaultReader;
 use gimli::{EndianSlice, Error, Reader, Result, RunTimeEndian};
 
+pub mod line;
 pub mod small;
 
 pub fn endian_of(case: &Case) -> RunTimeEndian {
@@ -152,6 +153,8 @@ pub fn drive_family<'a, R: Reader<Offset = usize> + 'a>(
         "addr" => small::addr(mk, case, ctx),
         "str" => small::strs(mk, case, ctx),
         "pub" => small::pubs(mk, case, ctx),
+        "line" => line::line(mk, case, ctx),
+        "macros" => line::macros(mk, case, ctx),
         other => panic!("unknown family {}", other),
     }
 }
